@@ -11,12 +11,15 @@ Blank == [proto |-> "connect", side |-> "client", shape |-> "stream", raw |-> FA
 \* the transport segmented them must end alike.  `last` remembers the previous trace's scenario and outcome
 \* (the runner records the segmentations of one scenario next to each other).
 VARIABLE last
-NoLast == [sc |-> Blank, ok |-> TRUE, code |-> 0, out |-> <<>>]
+NoLast == [sc |-> Blank, ok |-> TRUE, code |-> 0, out |-> <<>>, after |-> <<>>]
+\* (`after`: what further Receives on a handler's connection reported after the failure -- not specified by Frames,
+\*  but it may not depend on the segmentation either)
+After == IF "after" \in DOMAIN Cur THEN Cur.after ELSE <<>>
 SameAsLast == last.sc = sc /\ "dontcare" \notin Expect(sc).res =>
-                Cur.ok = last.ok /\ Cur.code = last.code /\ Cur.out = last.out
+                Cur.ok = last.ok /\ Cur.code = last.code /\ Cur.out = last.out /\ After = last.after
 \* C09: one message may not make the receiver allocate much more than the limit
 Bounded == ("bomb" \in DOMAIN sc /\ sc.bomb /\ sc.limit > 0) => Cur.alloc_kb <= (sc.limit \div 128) + 8192
-Remember == last' = [sc |-> sc, ok |-> Cur.ok, code |-> Cur.code, out |-> Cur.out]
+Remember == last' = [sc |-> sc, ok |-> Cur.ok, code |-> Cur.code, out |-> Cur.out, after |-> After]
 
 TraceInit == /\ l = 1 /\ failed = FALSE /\ InitWith(Blank) /\ last = NoLast
 
